@@ -258,7 +258,9 @@ def _tag(forest, lets=frozenset(), inmatch=frozenset(), depth=0):
             r = _tag(t[2], lets | {b[1] for b in t[1] if b[0] == "b"}, inmatch, depth)
         elif op == "match":
             r = _tag(t[2], lets, inmatch | ({t[1]} & lets), depth)
-        elif op == "lfor":
+        elif op in ("lfor", "lforr"):
+            if op == "lforr" and t[1] in lets:
+                return "let-bound-name-read-in-the-iterable-of-the-comprehension-clause-that-rebinds-it"
             r = _tag(t[2], lets - {t[1]}, inmatch - {t[1]}, depth + 1)
         elif op == "exc":
             r = _tag(t[2], lets | {t[1]}, inmatch - {t[1]}, depth)
